@@ -366,7 +366,7 @@ def _ua_bracket(dc, ens):
         prob.solve(solver=cp.CLARABEL)
     except Exception as e:  # noqa: BLE001
         raise Undecided("harness candidate solve failed: %s" % type(e).__name__)
-    if s.value is None or con.dual_value is None:
+    if s.value is None:
         raise Undecided("harness candidate solve returned nothing")
     s0 = np.clip(np.array(s.value, dtype=float), 0, None)
     # largest t in [0,1] with G - t diag(s0) >= 0 (t = 0 is feasible because G >= 0)
@@ -381,9 +381,20 @@ def _ua_bracket(dc, ens):
             else:
                 b = m
     lo = float(pv @ (a * s0)) if dc.lam_min(g - np.diag(a * s0)) >= -1e-13 else 0.0
-    z = dc.psd_part(np.array(con.dual_value, dtype=complex))
-    z = z + np.diag(np.clip(pv - np.diag(z).real, 0, None) * (1 + 1e-9))
-    his = [float(np.trace(g @ z).real) + 1e-12, float(np.trace(g @ z.conj()).real) + 1e-12]
+    zv = cp.Variable((n, n), hermitian=True)
+    prob2 = cp.Problem(cp.Minimize(cp.real(cp.trace(g @ zv))), [zv >> 0, cp.real(cp.diag(zv)) >= pv])
+    try:
+        prob2.solve(solver=cp.CLARABEL)
+    except Exception as e:  # noqa: BLE001
+        raise Undecided("harness candidate solve failed: %s" % type(e).__name__)
+    if zv.value is None:
+        raise Undecided("harness candidate solve returned nothing")
+    his = []
+    for z0 in (np.array(zv.value, dtype=complex), np.array(zv.value, dtype=complex).conj()):
+        z = dc.psd_part(z0)
+        z = z + np.diag(np.clip(pv - np.diag(z).real, 0, None) * (1 + 1e-9))
+        assert dc.lam_min(z) >= -1e-13 and np.all(np.diag(z).real >= pv - 1e-15)
+        his.append(float(np.trace(g @ z).real) + 1e-12)
     return lo, min(his)
 
 
@@ -464,6 +475,8 @@ def tdm_spec(p):
     rng = np.random.default_rng([int(p.get("seed", 0)), 5])
     d, field, shape = int(p["d"]), p["field"], p["shape"]
     if shape == "square":
+        if d == 1:
+            return  # a 1x1 array is also a vector of length one: not judged
         a = rng.standard_normal((d, d)) + (1j * rng.standard_normal((d, d)) if field == "complex" else 0)
         got = to_density_matrix(a)
         if got.shape != (d, d) or not np.array_equal(got, a):
@@ -564,17 +577,25 @@ def cases(tier, seed):
             for (n, d) in nd:
                 for field in fields:
                     for form in forms:
+                        # the primal form on 2 or 3 states is slow in cvxopt (0.3-6 s per solve) and, for d = 4, always ends in a
+                        # solver breakdown: sampled sparsely in the quick tier
+                        slow = form == "primal" and n <= 3
+                        clauses = ME_GENERIC if thorough or not (slow and d == 4) else ["me.returns_normally"]
                         for k in range(3):
                             i += 1
+                            if slow and k > 0 and not thorough:
+                                continue
                             rep = reps[(i + k) % 3]
                             pr = priors[(i // 3 + k) % 4]
                             base = dict(n=n, d=d, field=field, form=form, solver=solver, rep=rep, prior=pr, kind="pure", seed=sd + i, phases=True)
-                            for cl in ME_GENERIC:
+                            for cl in clauses:
                                 add(cl, base, icl("min_error", form, field, "vec" if rep != "dm" else "dm", solver))
-                        for rank in (0, 1 if d > 2 else 0, 2 if d > 2 else 0):
+                        for k, rank in enumerate((0, 1 if d > 2 else 0, 2 if d > 2 else 0)):
                             i += 1
+                            if slow and k > 0 and not thorough:
+                                continue
                             base = dict(n=n, d=d, field=field, form=form, solver=solver, prior=priors[i % 4], kind="mixed", rank=rank, seed=sd + i)
-                            for cl in ME_GENERIC:
+                            for cl in clauses:
                                 add(cl, base, icl("min_error", form, field, "dm", solver))
             # ---- two states: Helstrom (pure pairs with prescribed overlap, mixed pairs)
             for field in fields:
